@@ -41,6 +41,9 @@ def cases(tier):
         # network; mechanism: uniqueness for monotone loss laws)
         if len(c["edges"]) >= c["n"] and any(v in ("pump", "compressor") for k, v in c["point"].items() if k.startswith("e")):
             continue
+        # labels that differ from the table position (descending): a start value written by label instead of through the
+        # lookup lands on another junction
+        c = dict(c, point=dict(c["point"], labels="desc"))
         out.append({"kind": "pn", "base": c, "steep": False, "tier": tier})
         if c["fluid"] != "water" and not c["dev"]:
             out.append({"kind": "pn", "base": c, "steep": True, "tier": tier})
@@ -50,6 +53,11 @@ def cases(tier):
             if pt["mode"] == "sequential" and topo not in ("line", "tee12", "deadend"):
                 continue
             out.append({"kind": "T", "base": {"scope": "T", "topo": topo, "point": dict(pt, numba=False, ambient=293.15)}, "tier": tier})
+    # networks with a part that is calculated hydraulically but has no temperature source (p-type feeder)
+    from mc.checks import c04
+    for mode in ("sequential", "bidirectional"):
+        for number in (0, 1, 8, 9, 64):
+            out.append({"kind": "T", "base": {"scope": "E", "mode": mode, "number": number}, "tier": tier})
     for lc in c11.cases("quick"):
         if lc["pump"] == "circ_pump_pressure" and lc["u"] == 10.0:
             if lc["mode"] == "sequential" and any(k.startswith("QE") for k in lc["kinds"]):
@@ -87,7 +95,12 @@ def run_case(case):
         col, alphabet, base = "pn_bar", [2.5, 10.0, 80.0], 5.0
         modes = [opts]
     else:
-        if b["scope"] == "T":
+        if b["scope"] == "E":
+            from mc.checks import c04
+            sp0, flags, opts = c04.superset_E(b["mode"])
+            sp, _ = c04.apply_flags(sp0, flags, len(flags), b["number"])
+            opts = {"mode": b["mode"], "use_numba": False}
+        elif b["scope"] == "T":
             sp, opts = c10.topo_spec(b)
         else:
             sp = c11.ladder_spec(b)
